@@ -257,6 +257,21 @@ def run(ctx):
                 bad('var', '%s of %d characters raised %s: %s' % (name, n_, type(e).__name__, e), dict(code=code, length=n_))
         if R.IDENT_len(bytes([n_]) + txt + b'zz', 0) != 1 + n_:
             bad('var', 'IDENT_len of %d characters = %d' % (n_, R.IDENT_len(bytes([n_]) + txt + b'zz', 0)), dict(length=n_))
+    # contents, not only lengths: every character the standard allows in the string type, blanks alone, digits alone
+    special = {19: [b'A.B-C_D', b'~!@#$%^&*', b'0123', b'0', b'-'], 27: [b' ', b'    ', b'0.1 in', b'm/s2', b'(kg.m)/s', b'1000 ft3/d', b'-', b'0', b' m ', b'm '],
+               20: [b' ', b'\n\t ', b'  two  ', bytes(range(1, 128)), b'0', b'\x00']}
+    for code, name in ((19, 'IDENT'), (27, 'UNITS'), (20, 'ASCII')):
+        for txt in special[code]:
+            ld = RF.LogicalData(bytes([len(txt)]) + txt + b'\x55\xaa')
+            ctx.case(('text-content', name, txt.hex()), True)
+            try:
+                got = R.code_read(code, ld)
+                gotb = bytes(got) if isinstance(got, (bytes, bytearray)) else str(got).encode('latin-1')
+                if gotb != txt or ld.index != 1 + len(txt):
+                    bad('var', '%s %r decodes to %r consuming %d bytes, standard: the characters as stored, %d bytes' % (name, txt, gotb, ld.index, 1 + len(txt)),
+                        dict(code=code, text=txt.hex()))
+            except Exception as e:
+                bad('var', '%s %r raised %s: %s' % (name, txt, type(e).__name__, e), dict(code=code, text=txt.hex()))
     for n_ in (0, 1, 127, 128, 300, 16383, 16384, 20000):
         txt = bytes(97 + (k * 5 + n_) % 26 for k in range(n_))
         pre = bytes([n_]) if n_ < 128 else (struct.pack('>H', 0x8000 | n_) if n_ < 16384 else struct.pack('>I', 0xC0000000 | n_))
